@@ -7,7 +7,7 @@ from common import hx
 from props.c02 import boundary_values
 
 ID = "C06"
-LEAN_IMPORTS = ["PyTrie.Props.C06", "PyTrie.Props.C05Batch", "PyTrie.Props.RawLevel"]
+LEAN_IMPORTS = ["PyTrie.Props.C06", "PyTrie.Props.C05Batch", "PyTrie.Props.RawLevel", "PyTrie.Props.NonVacuity"]
 THEOREMS = [
     "PyTrie.Props.C06.setE_tree",
     "PyTrie.Props.C06.deleteE_tree",
@@ -25,6 +25,9 @@ THEOREMS = [
     "PyTrie.Props.Raw.set_refines",
     "PyTrie.Props.Raw.delete_refines",
     "PyTrie.Props.Raw.keccak_is_std",
+    "PyTrie.Props.NonVacuity.c06_pruneInv",
+    "PyTrie.Props.NonVacuity.c06_pruneInv_mid",
+    "PyTrie.Props.NonVacuity.hist_reach",
 ]
 RULE = ("pruning tries started on an empty database and modified only through their own API: histories of "
         "set/delete/set-to-empty/no-op updates and squash_changes blocks (committed and aborted) over prefix-sharing "
